@@ -6,6 +6,10 @@ props = [json.loads(l) for l in open(os.path.join(V, "properties.jsonl"))]
 
 # property id -> (design_ref, text, level_note, technique)
 BUILT = {
+ "C12": ("DESIGN.md 6/C12",
+  "Dispatch.tla transcribes register / handle lookup (direct name, one-hop alias fallback, not found), the five formatters, client-side naming and the arity / per-parameter decode gate; TLC checks P_C12 on every explored row and exports the table; rows are executed against a real RPCServer (in-process and over HTTP) and a real custom-transport client; TLC re-evaluates model and P_C12 on every observed outcome.",
+  "name-dispatch rows are a seeded TLC sample (RandomSubset per dimension) of the 1.1M-row universe, client and arity rows complete; decodability oracle is encoding/json; trusts the reply classifier of the harness",
+  "TLA+ model (Dispatch.tla) checked by TLC; TLC-exported table replayed into the real code; TLC trace validation (DispatchTrace.tla)"),
  "C19": ("DESIGN.md 6/C19",
   "Auth.tla transcribes HasPerm/PermissionedProxy/auth.Handler statement by statement; TLC checks P_C19 on every one of the 1902 rows of the "
   "3-permission universe and exports the table; every row is executed against the real auth package (several seeded concretisations, fresh and "
